@@ -2,7 +2,28 @@ package pubsubmon
 
 import "time"
 
-var vrfEntries = map[string]func(){"VrfC15Pubsubmon": VrfC15Pubsubmon}
+var vrfEntries = map[string]func(){"VrfC15Pubsubmon": VrfC15Pubsubmon, "VrfC15PubsubmonEnv": VrfC15PubsubmonEnv}
+
+// VrfC15PubsubmonEnv: the check interval supplied through the environment (the
+// failure threshold is a float and stays as loaded).
+func VrfC15PubsubmonEnv() {
+	cfg := &Config{CheckInterval: time.Duration(vrf_nondet_int64("check_interval")),
+		FailureThreshold: []float64{0.5, 3}[vrf_choice("failure_threshold", 2)]}
+	vrf_assume(cfg.Validate() == nil)
+	before := *cfg
+	setT, valT := vrf_nondet_bool("env_set_CheckInterval"), time.Duration(vrf_nondet_int64("env_CheckInterval"))
+	vrf_env(envConfigKey, "CheckInterval", setT, valT.String())
+	err := cfg.ApplyEnvVars()
+	want := time.Duration(vrf_ite_int(setT, int(valT), int(before.CheckInterval)))
+	if err == nil {
+		vrf_assert(cfg.CheckInterval == want, "C15.pubsubmon.env-in-effect")
+		vrf_assert(cfg.FailureThreshold == before.FailureThreshold, "C15.pubsubmon.env-others-unchanged")
+		vrf_assert(cfg.Validate() == nil, "C15.pubsubmon.env-accepted-implies-valid")
+	} else {
+		vrf_assert(!(want > 0), "C15.pubsubmon.env-valid-accepted")
+	}
+	vrf_reach("C15.pubsubmon.env-end")
+}
 
 func VrfC15Pubsubmon() {
 	d := &Config{}
